@@ -89,13 +89,18 @@ Definition exchange (c : rpccfg) : outcome :=
 Definition get_opt (s v : Z) : option Z := if s =? 0 then None else Some v.
 
 (* op [1; mset; m; dset; d; def]          getMaxSize(mc, dopt, def) called directly
-   op [2; 8 x (set, value); comp; n_req; pat_req; n_resp; pat_resp]   one unary exchange
+   op [2; 8 x (set, value); comp; n_req; pat_req; n_resp; pat_resp; prep_req; prep_resp]
+                                          one unary exchange; prep_req / prep_resp = 1: the
+                                          client / the server passes the message to SendMsg as a
+                                          *PreparedMsg (pre-encoded by PreparedMsg.Encode): prepareMsg
+                                          hands back the same payload and SendMsg applies the same
+                                          check, so the outcome does not depend on these flags
    obs op1 = [result]
    obs op2 = [eff_send; eff_recv; code; srv_got; req_intact; srv_recv_exh; srv_sent; srv_send_exh;
               cli_got; resp_intact] *)
 Definition get_cfg (r : word) : option rpccfg :=
   match r with
-  | [s1; v1; s2; v2; s3; v3; s4; v4; s5; v5; s6; v6; s7; v7; s8; v8; cp; nq; pq; nr; pr] =>
+  | [s1; v1; s2; v2; s3; v3; s4; v4; s5; v5; s6; v6; s7; v7; s8; v8; cp; nq; pq; nr; pr; _; _] =>
     if (0 <=? nq) && (0 <=? nr) then
       Some (mkcfg (get_opt s1 v1) (get_opt s2 v2) (get_opt s3 v3) (get_opt s4 v4) (get_opt s5 v5)
                   (get_opt s6 v6) (get_opt s7 v7) (get_opt s8 v8) (z2b cp) nq pq nr pr)
